@@ -31,7 +31,8 @@ HOSTS = [("h.com", "h.com"), ("é.com", "é.com"), ("127.0.0.1", "127.0.0.1"), (
          ("h.com.", "h.com."), ("é.com.", "é.com."), ("☃.net", "☃.net"), ("☃.net.", "☃.net."), ("_dmarc.é.com.", "_dmarc.é.com."),
          ("fe80::1%eth0", "[fe80::1%eth0]"), ("xn--9ca.com", "é.com")]
 MAIN_HOSTS = 4
-POSITIONS = ["user", "password", "path", "qkey", "qval", "fragment", "all", "path_only", "default_port", "default_port_userinfo"]
+POSITIONS = ["user", "password", "path", "qkey", "qval", "fragment", "all", "path_only", "default_port", "default_port_userinfo",
+             "password_then_with_user", "user_then_with_password"]
 DELIMS = {"user": "#/:?@[]", "password": "#/:?@[]", "path": "#?", "query": "#&+;=", "fragment": ""}
 PCT = re.compile(r"((?:%[0-9A-Fa-f]{2})+)")
 
@@ -58,6 +59,11 @@ def build(pos, host, w):
         return U.build(scheme="http", host=host, path="/" + w, fragment=w).with_port(80)
     elif pos == "default_port_userinfo":
         return U.build(scheme="https", host=host, user="u", password=w, path="/p").with_port(443)
+    elif pos == "password_then_with_user":
+        # the text is already part of the URL when another modifier rebuilds the authority around it
+        return U.build(scheme="http", host=host, user="u", password=w, path="/p").with_user("n\xe9w")
+    elif pos == "user_then_with_password":
+        return U.build(scheme="http", host=host, user=w, path="/p").with_password("p w").with_port(81)
     elif pos == "all":
         kw.update(user=w, password=w, path="/" + w, query={w: w}, fragment=w, port=8080)
     return U.build(**kw)
